@@ -239,7 +239,9 @@ impl ActorAttributeArguments {
             match get_lit(meta) {
                 syn::Lit::Int(val) => { 
                     let value = to_usize(&val);
-                    if value > 0 { self.channel = Channel::Buffer(val.clone()); }
+                    // `channel = 0` is an explicit request for an unbounded channel, 
+                    // a family member overrides an inherited buffer with it
+                    if value > 0 { self.channel = Channel::Buffer(val.clone()); } else { self.channel = Channel::Unbounded; }
                 },
                 v => abort!(v, error::error_name_type( &meta.path(), "Int (usize)"); help=avail_error ),
             }
